@@ -41,7 +41,7 @@ class C10(Check):
     TRACE_FILES = ('modulebase.py', 'server.py')
     TIERS = {'quick': {'runs': 12000, 'wall': 70}, 'thorough': {'runs': 200000, 'wall': 800}}
     MAX_VIRTUAL = 400
-    RULE = ('[a quarter of the cases restart the node on the same loaded configuration and judge the second generation] ' 'case = 1..3 generated module classes + configuration files (1..2 files, merged) configuring a random subset '
+    RULE = ('[error kind: value longer than the maxchars/maxbytes/maxlen given with it; 40 % of the modules with a double value get their unit from the configuration, members of structs/tuples with units relative to it] ' '[a quarter of the cases restart the node on the same loaded configuration and judge the second generation] ' 'case = 1..3 generated module classes + configuration files (1..2 files, merged) configuring a random subset '
             'of parameters (bare value / Param(value) / Param(min, max, unit, visibility, readonly, export)) and module '
             'properties, with 0..3 injected errors {unknown name, unknown parameter property, value of the wrong type, '
             'missing mandatory property, required value missing, inverted limits, bad module property, Param(value, maxchars/maxbytes/maxlen below the length of that value)}; distinct = '
